@@ -115,8 +115,13 @@ pub fn run_case(case: &Case) -> Outcome {
     }
     // leading coefficient
     let lead = exact[n];
-    if (coefs[n] - c(lead, 0.0)).norm() > bound {
-        return o.fail("leading coefficient");
+    // the leading coefficient is a single product/quotient of small integers in every family (2^n, 2^(n-1),
+    // (2n)!/(2^n n!^2), (-1)^n/n!): it must hold to relative rounding accuracy, not only on the scale of the
+    // largest coefficient (measured: <= 2.3e-16 relative)
+    let lead_rel = (coefs[n] - c(lead, 0.0)).norm() / lead.abs();
+    o.set("ratio_lead", lead_rel / 1e-10);
+    if !(lead_rel <= 1e-10) {
+        return o.fail(format!("{}({n}): leading coefficient {:e} differs from the exact {lead:e} by {lead_rel:e} relative", FAMILIES[case.family as usize], coefs[n]));
     }
     o.pass()
 }
@@ -138,7 +143,7 @@ pub fn run(opts: &Opts) -> i32 {
     }
     spec.cases = opts.tier.pick(4_000, 200_000);
     spec.exhaustive = Some("five families x n=0..20 x tolerances {1e-14,1e-12,1e-10,1e-8,1e-6} x {f64, Complex<f64>}".into());
-    spec.rule = "enumerated: family x n in 0..=20 x five zero tolerances x real/complex; generated: same with log-uniform tolerance in [1e-14,1e-6]. Oracle: exact rational coefficients from the three-term recurrences in checked i128 arithmetic; order()==n; |c_k - exact_k| <= 64 eps n |exact|_1; normalisations, trigonometric identities, parity, leading coefficient. Non-trivial = n >= 2. Distinct = distinct case JSON.".into();
+    spec.rule = "enumerated: family x n in 0..=20 x five zero tolerances x real/complex; generated: same with log-uniform tolerance in [1e-14,1e-6]. Oracle: exact rational coefficients from the three-term recurrences in checked i128 arithmetic; order()==n; |c_k - exact_k| <= 64 eps n |exact|_1; normalisations, trigonometric identities, parity, leading coefficient to 1e-10 relative. Non-trivial = n >= 2. Distinct = distinct case JSON.".into();
     spec.assumptions = vec!["exact reference fits i128 for n <= 20 (checked arithmetic; overflow would be a discard)".into()];
     spec.max_discard_frac = 0.0;
     run_spec(spec, opts)
